@@ -416,6 +416,9 @@ Proof.
   - inversion H; subst. cbn. eauto.
   - inversion H; subst. cbn. eauto.
   - inversion H; subst. eauto.
+  - inversion H; subst. cbn. eauto.
+  - inversion H; subst. cbn. eauto.
+  - inversion H; subst. cbn. eauto.
 Qed.
 
 Lemma anergic_silent_proof : forall rnd g ops s0 s o out,
@@ -527,7 +530,7 @@ Fixpoint streak (tr : list (sys * op * outcome)) : Z :=
 Lemma streak_nonneg : forall tr, 0 <= streak tr.
 Proof.
   induction tr as [|[[s o] out] tr IH]; cbn [streak]; [lia|].
-  destruct o as [po| | | | | | | | | | | |po| ]; try lia; try (destruct out; lia).
+  destruct o as [po| | | | | | | | | | | |po| | | | ]; try lia; try (destruct out; lia).
   - destruct po; [|lia]. destruct out; try lia. destruct (s_tcell s); [|lia].
     destruct (nonempty _); lia.
   - destruct out; try lia. destruct r; lia.
@@ -579,6 +582,9 @@ Proof.
     destruct (_ && _). { inversion H; subst. cbn [streak]. auto. }
     inversion H; subst. cbn [streak]. cbn in Ht1. inversion Ht1; subst. cbn. lia.
   - inversion H; subst. cbn [streak]. auto.
+  - inversion H; subst. cbn [streak]. cbn in Ht1. auto.
+  - inversion H; subst. cbn [streak]. cbn in Ht1. auto.
+  - inversion H; subst. cbn [streak]. cbn in Ht1. auto.
 Qed.
 
 Lemma streak_run : forall rnd g ops s0 tr0,
@@ -956,7 +962,8 @@ Lemma sys_inspect_mem : forall g s t p s' out,
      s_mem s' = if stores (r_level (fst (after_treg g r0 (s_rec s))))
                 then mem_store (g_cap g) (s_clock s) (s_mem s)
                        (mkSig 0 (p_vh p) (p_sh p) (r_level (fst (after_treg g r0 (s_rec s))))
-                              (r_action (fst (after_treg g r0 (s_rec s)))) 0 0)
+                              (r_action (fst (after_treg g r0 (s_rec s)))) 0 0
+                              (r_viol (fst (after_treg g r0 (s_rec s)))))
                 else s_mem s).
 Proof.
   intros g s t p s' out Ht H. unfold sys_inspect in H. rewrite Ht in H. cbn [orb] in H.
@@ -1004,6 +1011,7 @@ Proof.
     destruct p as [p|]; [|inversion H; subst; exact M].
     destruct (_ <? _); [inversion H; subst; exact M|]. destruct (_ <=? _); [inversion H; subst; exact M|].
     destruct (_ && _); inversion H; subst; exact M.
+  - (* partial touch *) inversion H; subst. cbn. split; [|intros; discriminate]. apply touch_first_ok. exact M.
 Qed.
 
 Lemma within_one_step_proof : forall rnd g ops s0 s p r sp,
@@ -1087,6 +1095,7 @@ Proof.
     change mem' with (fst (mem', imp')). rewrite <- MI. apply mem_import_other; assumption.
   - inversion H; subst. cbn. unfold mem_prune_old. clear H. induction N as [|x l Hx Hl IH]; cbn; [constructor|].
     destruct (_ <? _); [constructor|]; auto.
+  - inversion H; subst. cbn. apply touch_first_other. exact N.
   - inversion H; subst. cbn. apply touch_first_other. exact N.
 Qed.
 
